@@ -255,8 +255,8 @@ def run_check(prop, tier='quick', seed=0, jobs=None, only=None, write_baseline=F
             extras.append(fname)
     if not only:
         tasks.append(('conformance', (seed, tier == 'quick')))
-        if selected:
-            tasks.append(('canary', selected[0]))
+        for sel in selected[:1] + selected[len(selected) // 2:len(selected) // 2 + 1] + selected[-1:]:
+            tasks.append(('canary', sel))
     if not tasks:
         print(f'CHECKER-ERROR property={prop}: no obligations selected')
         return 3
@@ -301,6 +301,7 @@ def aggregate(prop, tier, seed, results, t_start, write_baseline, extra_mod, qui
     extra_reports = []
     pending_native = []
     uses = {}
+    canary_seen = []
     for r in results:
         if 'crash' in r:
             checker_errors.append(f"{r.get('kind')} {r.get('qualname', r.get('id', ''))}: {r['crash'].splitlines()[-1]}")
@@ -311,9 +312,8 @@ def aggregate(prop, tier, seed, results, t_start, write_baseline, extra_mod, qui
                 checker_errors.append('external-model conformance failed: ' + '; '.join(r['failures'][:3]))
             continue
         if r['kind'] == 'canary':
-            canary_ok = r['ok']
-            if not r['ok']:
-                checker_errors.append('vacuity canary was not refuted on ' + r.get('on', '?'))
+            canary_ok = bool(canary_ok) or r['ok']
+            canary_seen.append(r.get('on', '?'))
             continue
         if r['kind'] == 'extra':
             extra_reports.append(r)
@@ -397,6 +397,8 @@ def aggregate(prop, tier, seed, results, t_start, write_baseline, extra_mod, qui
         if cross and cross.get('bounded_standin'):
             bounded_list.append({'function': q, 'shape': shp, 'bound': cross['bound'], 'evaluations': cross['evaluations'],
                                  'failures': len(cross['failures'])})
+    if canary_seen and not canary_ok:
+        checker_errors.append('vacuity canary was not refuted on any of ' + ', '.join(canary_seen))
     # a proved (modular) shape that fails natively is explained when a contract it relies on
     # (transitively) is itself refuted: the violation is the callee's, reported there.
     refuted_fns = {f[1] for f in failures}
